@@ -158,6 +158,37 @@ fn decoys_impl(g: &GameState, board_variants: bool) -> Vec<GameState> {
                     out.push(build(gold, moveno, step, &b2, &prev, PushPullState::None, trapped, same_hist()));
                 }
             }
+            // D8: the same board, side, step and status reached from ANOTHER turn start (the earlier boards differ:
+            // one piece of the opponent stands one square elsewhere in all of them)
+            if step >= 1 {
+                let mut alt: Option<(usize, usize)> = None;
+                'f2: for i in 0..64usize {
+                    let c = prev[0].0[i];
+                    if c == 0 || is_gold(c) == gold {
+                        continue;
+                    }
+                    for k in 0..4u8 {
+                        if let Some(j) = nb(i, k) {
+                            if prev.iter().all(|b| b.0[j] == 0 && b.0[i] == c) && !TRAPS.contains(&j) {
+                                alt = Some((i, j));
+                                break 'f2;
+                            }
+                        }
+                    }
+                }
+                if let Some((i, j)) = alt {
+                    let pv: Vec<MBoard> = prev
+                        .iter()
+                        .map(|b| {
+                            let mut x = *b;
+                            x.0[j] = x.0[i];
+                            x.0[i] = 0;
+                            x
+                        })
+                        .collect();
+                    out.push(build(gold, moveno, step, &board, &pv, status, trapped, same_hist()));
+                }
+            }
         }
         // D4: the same state with another past of the same length and the same newest entry
         if hist.len() >= 2 {
